@@ -209,3 +209,33 @@ pub fn coord_to_upper_triangular_index(c: (usize, usize)) -> usize {
 pub fn upper_triangular_index_to_coord(k: usize) -> (usize, usize) {
     crate::algebra::upper_triangular_index_to_coord(k)
 }
+
+/// State of the supernode tree immediately before and after `reorder_snode_consecutively`
+/// (the analysis of `SparsityPattern::new` replayed step by step on a mask whose diagonal is
+/// marked).  `nblk` is not yet computed in either view.
+pub fn reorder_trace(nz_mask: &[bool], merge_method: &str) -> (TreeView, TreeView) {
+    let (L, mut ordering) = ChordalInfo::<f64>::verif_find_graph(nz_mask);
+    let mut sntree = SuperNodeTree::new(&L);
+    if sntree.n_cliques > 1 {
+        match merge_method {
+            "none" => NoMergeStrategy::new().merge_cliques(&mut sntree),
+            "parent_child" => ParentChildMergeStrategy::new().merge_cliques(&mut sntree),
+            _ => CliqueGraphMergeStrategy::new().merge_cliques(&mut sntree),
+        }
+    }
+    let snap = |t: &SuperNodeTree, ordering: &[usize]| TreeView {
+        orig_index: 0,
+        snode: t.snode.iter().map(sorted).collect(),
+        separators: t.separators.iter().map(sorted).collect(),
+        parent: t.snode_parent.clone(),
+        snode_post: t.snode_post.clone(),
+        vertex_post: t.post.clone(),
+        nblk: t.nblk.clone(),
+        n_cliques: t.n_cliques,
+        ordering: ordering.to_vec(),
+    };
+    let before = snap(&sntree, &ordering);
+    sntree.reorder_snode_consecutively(&mut ordering);
+    let after = snap(&sntree, &ordering);
+    (before, after)
+}
